@@ -19,7 +19,16 @@ For every step of every history
     real spec re-applied to a plain copy of the state must accept it and map it
     to itself,
   * any exception raised must be one of the three classes (IndexError only for
-    an out-of-range index) and must leave the state unchanged.
+    an out-of-range index) and must leave the state unchanged,
+  * a rejected write is immediately repeated (it must be rejected again), and
+    after an accepted call an invalid follow-up write is aimed at everything the
+    schema governs (the container, its typed children, a returned copy): the
+    schema must still be in force.
+
+Class definitions / spec objects of a subject are shared between the runs of
+that subject for speed; every failure is re-confirmed on a completely fresh
+build (new classes, new spec objects) before it is recorded, so state leaked
+through a shared spec cannot produce a failure whose witness passes.
 """
 import itertools
 import re
@@ -443,6 +452,7 @@ def vocabulary(tier):
       d_union([i05, d_str('^[a-c]+$')]),
       d_any(),
       d_list(inner_dict, 0, 2),
+      d_union([d_bool(), d_list(i05, 0, 1), inner_dict]),
   ]
   if tier != 'quick':
     voc += [
@@ -453,7 +463,6 @@ def vocabulary(tier):
         d_list(d_list(i05, 0, 2), 0, 2),
         d_tuple([d_bool()]),
         d_dict([('n', inner_dict), ('m', noneable(d_list(i05, 0, 1)))], name='Dict(n{p,q},m?)'),
-        d_union([d_bool(), d_list(i05, 0, 1), inner_dict]),
         d_enum('b'),
         frozen(d_str(), "'z'"),
         d_list(inner_obj, 0, 2),
@@ -817,6 +826,8 @@ def list_ops(sub, n, elem_samples):
       cls = 'valid'
     op = dict(src=src, cid=f'{kindname}.{name}/{cls}', expect='reject' if why else 'any', why=why,
               index_error=index_error, result=result)
+    if bad and 'symbolic-partial' in bad[0]:
+      op['cid'] = f'{kindname}.write/partial-symbolic-value-into-non-partial'   # one input class, any path
     if batch:
       g = _list_batch_ok(sum(1 for _, _, v in vals if v))
       op['batch_ok'] = lambda b, a, g=g: _on_x(sub, b, a, g)
@@ -946,7 +957,9 @@ def drv_list_writes(tier, seed):
       scope=f'{len(voc)} element specs x size bounds {[(a, b) for a, b, _ in _SIZE_CONFIGS]} (at/below/above each bound) x '
             'all list write paths (ctor, append, insert, extend, +=, *=, item/slice assignment, pop, del, remove, clear, '
             'rebind replace/append/insert/delete/multi, +, *, copy, clone) x every valid and invalid sample of the element '
-            'spec; list stand-alone and as child of a typed Dict / Object / List; single steps from a valid state')
+            'spec (plain, symbolic untyped, symbolic with same/other spec, partial); list stand-alone, explicitly partial, '
+            'and as child of a typed Dict / Object / List; single steps from a valid state, each rejected write repeated, '
+            'each accepted call followed by an invalid probe write')
   for ei, elem in enumerate(voc):
     samples = _elem_samples(elem)
     if elem.frozen:
@@ -1010,7 +1023,7 @@ def drv_list_histories(tier, seed):
             ok, _ = r2.step(op1, (elem.name, lo, hi, where, op1['src']))
             r2.step(op2, (elem.name, lo, hi, where, op1['src'], op2['src']))
         # random long histories
-        for h in range(40 if tier == 'quick' else 600):
+        for h in range(30 if tier == 'quick' else 600):
           r = Run(rec, sub)
           for j in range(rnd.randint(3, 10)):
             ops = list_ops(sub, len(r.x), samples)
@@ -1120,6 +1133,8 @@ def dict_ops(sub, fd, present):
 
   def add(name, src, cls, why=None, batch=None, result=None):
     op = dict(src=src, cid=f'{kind}.{name}/{cls}', expect='reject' if why else 'any', why=why, result=result)
+    if why and 'symbolic-partial' in why:
+      op['cid'] = f'{kind}.write/partial-symbolic-value-into-non-partial'   # one input class, any path
     if batch is not None:
       g = _dict_batch_ok(batch)
       op['batch_ok'] = lambda b, a, g=g: _on_x(sub, b, a, g)
@@ -1361,7 +1376,7 @@ def drv_dict_histories(tier, seed):
   rec = Recorder(
       'C03', 'typed pg.Dict / pg.Object: mutation histories',
       scope='field specs Int[0,5], Int default, List(Int,1,2), Dict(p,q=d); modes full/partial/scope; all histories of '
-            'length 2 over the per-state op alphabet restricted to single-location writes/removals (sampled 1/13 x 1/13 in quick, 1/5 x 1/5 in thorough), '
+            'length 2 over the per-state op alphabet restricted to single-location writes/removals (sampled 1/17 x 1/17 in quick, 1/5 x 1/5 in thorough), '
             'seeded random histories of length <=8 over the whole alphabet; checks after every step')
   i05 = d_int(0, 5)
   fds = [i05, with_default(d_int(0, 5), '2'), d_list(i05, 1, 2),
@@ -1375,7 +1390,7 @@ def drv_dict_histories(tier, seed):
         if probe.dead:
           continue
         first = [o for o in dict_ops(sub, fd, plain(probe.x)) if not o.get('result')]
-        stride = 13 if tier == 'quick' else 5
+        stride = 17 if tier == 'quick' else 5
         for i, op1 in enumerate(first):
           if i % stride:
             continue
@@ -1386,7 +1401,7 @@ def drv_dict_histories(tier, seed):
             r2 = Run(rec, sub)
             r2.step(op1, (fd.name, sub.kind, mode, op1['src']))
             r2.step(op2, (fd.name, sub.kind, mode, op1['src'], op2['src']))
-        for h in range(10 if tier == 'quick' else 120):
+        for h in range(8 if tier == 'quick' else 120):
           r = Run(rec, sub)
           for j in range(rnd.randint(3, 8)):
             ops = [o for o in dict_ops(sub, fd, plain(r.x)) if not o.get('result')]
